@@ -349,10 +349,14 @@ def rule_sh2(ctx, only=None):
 AXIS_FUNCS = {"np.flip": 1, "np.roll": 2, "np.cumsum": 1, "np.cumprod": 1,
               "np.squeeze": 1,
               # counts / sums: without an axis they merge all units
-              "np.count_nonzero": 1, "np.sum": 1, "np.mean": 1, "np.prod": 1}
+              "np.count_nonzero": 1, "np.sum": 1, "np.mean": 1, "np.prod": 1,
+              # a norm over every axis is one number for the whole composite
+              "np.linalg.norm": 1, "np.max": 1, "np.min": 1, "np.amax": 1,
+              "np.amin": 1}
 AXIS_METHODS = {"squeeze", "cumsum", "sum", "mean", "prod"}
 AXIS_REDUCTIONS = {"np.count_nonzero", "np.sum", "np.mean", "np.prod", "sum",
-                   "mean", "prod"}
+                   "mean", "prod", "np.linalg.norm", "np.max", "np.min",
+                   "np.amax", "np.amin"}
 # functions whose argument is one-dimensional by construction, or that belong
 # to a not-applicable property (reason frozen per entry)
 AX1_EXEMPT = {}
@@ -366,7 +370,8 @@ def rule_ax1(ctx, rels, scope=None):
     r.rule("AX1", "in vectorised code a reordering / cumulative / squeezing / "
                   "counting NumPy call whose default is every axis / the "
                   "flattened array (np.flip, np.roll, np.cumsum, np.squeeze, "
-                  "np.count_nonzero, np.sum, np.mean, np.prod) names its "
+                  "np.count_nonzero, np.sum, np.mean, np.prod, "
+                  "np.linalg.norm, np.max / np.min) names its "
                   "axis; np.sort / np.argsort default to the last axis and "
                   "are not concerned")
     n = 0
